@@ -3,6 +3,8 @@ import itertools
 
 import numpy as np
 
+from pbv import gen
+
 from pbv.core import Borderline, Rejected, Violation, require, require_close, subcheck
 
 SUBCHECKS = []
@@ -119,6 +121,9 @@ def draw_mask(d, K, F, T):
         m = np.round(m * (1 if kind == 'alphabet' else 3)).astype(dt)
     else:
         m = m.astype(dt)
+    # the same values behind another memory layout (as a posterior (F, K, T)
+    # transposed to (K, F, T) would be)
+    m = gen.vary(d, m, 141)
     return m, kind, np.dtype(dt).name
 
 
